@@ -351,12 +351,12 @@ Qed.
 
 Lemma update_cmd_ok kd kt excl cond a walk a' :
   update_cmd kd kt excl cond a walk = Ok a' ->
-  let r := update_pass excl cond a (filter (wanted kd) walk) [] in
+  let r := update_pass excl cond a (update_targets kd walk) [] in
   a' = fst (fst r) ++ map (fresh kt) (snd (fst r) ++ snd r).
 Proof.
   unfold update_cmd. destruct (collect kd walk) as [items| |] eqn:C; cbn; try discriminate.
-  apply collect_ok in C. subst items.
-  destruct (update_pass excl cond a (filter (wanted kd) walk) []) as [[k j] t]. cbn.
+  apply collect_ok in C. subst items. fold (update_targets kd walk).
+  destruct (update_pass excl cond a (update_targets kd walk) []) as [[k j] t]. cbn.
   destruct (build kt (j ++ t)) as [new| |] eqn:B; cbn; try discriminate.
   intro H. inversion H. apply build_ok in B. subst. reflexivity.
 Qed.
@@ -406,17 +406,82 @@ Proof.
         destruct IH as [I1 [I2 I3]]. rewrite I1. auto.
 Qed.
 
-Theorem update_keeps_others kd kt excl cond a walk a' :
+(* ---- the de-duplication of the walked paths (a048f63a) ---- *)
+Lemma dedup_seen_names : forall l seen q,
+  In q (map node_name (dedup_seen seen l)) <-> In q (map node_name l) /\ ~ In q seen.
+Proof.
+  induction l as [|n r IH]; intros seen q; cbn [dedup_seen map].
+  - cbn. tauto.
+  - destruct (mem (node_name n) seen) eqn:M.
+    + rewrite IH. cbn [In]. split; intros [H1 H2]; split; auto.
+      destruct H1 as [H1|H1]; auto. subst q. apply mem_In in M. contradiction.
+    + apply mem_nIn in M. cbn [map In]. rewrite IH. cbn [In]. split.
+      * intros [H|[H1 H2]]; [subst q; auto|]. split; auto.
+      * intros [[H|H] H2]; [left; exact H|].
+        destruct (list_eq_dec Byte.byte_eq_dec (node_name n) q) as [E|NE]; [left; exact E|right].
+        split; auto. intros [E|E]; auto.
+Qed.
+Lemma dedup_seen_nodup : forall l seen, NoDup (map node_name (dedup_seen seen l)).
+Proof.
+  induction l as [|n r IH]; intros seen; cbn [dedup_seen map]; [constructor|].
+  destruct (mem (node_name n) seen); [apply IH|]. cbn [map]. constructor; [|apply IH].
+  intro H. apply dedup_seen_names in H. destruct H as [_ H]. apply H. left. reflexivity.
+Qed.
+Lemma dedup_seen_incl : forall l seen, incl (dedup_seen seen l) l.
+Proof.
+  induction l as [|n r IH]; intros seen; cbn [dedup_seen]; [apply incl_refl|].
+  destruct (mem (node_name n) seen).
+  - apply incl_tl. apply IH.
+  - apply incl_cons; [left; reflexivity|]. apply incl_tl. apply IH.
+Qed.
+Lemma dedup_names_nodup l : NoDup (map node_name (dedup_names l)).
+Proof. apply dedup_seen_nodup. Qed.
+Lemma dedup_names_names l q : In q (map node_name (dedup_names l)) <-> In q (map node_name l).
+Proof. unfold dedup_names. rewrite dedup_seen_names. cbn. tauto. Qed.
+Lemma dedup_names_incl l : incl (dedup_names l) l.
+Proof. apply dedup_seen_incl. Qed.
+(* nothing to do when the walked paths name distinct entries: the command is then the one of before a048f63a *)
+Lemma dedup_seen_id : forall l seen, NoDup (map node_name l) -> (forall q, In q seen -> ~ In q (map node_name l)) ->
+  dedup_seen seen l = l.
+Proof.
+  induction l as [|n r IH]; intros seen ND Hs; cbn [dedup_seen]; auto.
+  inversion ND; subst.
+  replace (mem (node_name n) seen) with false.
+  - f_equal. apply IH; auto. intros q [Hq|Hq]; [subst q; auto|]. intro Hin. apply (Hs q Hq). right. exact Hin.
+  - symmetry. apply mem_nIn. intro Hin. apply (Hs _ Hin). left. reflexivity.
+Qed.
+Lemma dedup_names_id l : NoDup (map node_name l) -> dedup_names l = l.
+Proof. intro ND. apply dedup_seen_id; [exact ND|intros q []]. Qed.
+Lemma update_targets_nodup kd walk : NoDup (map node_name (update_targets kd walk)).
+Proof. apply dedup_names_nodup. Qed.
+Lemma mem_ext x l1 l2 : (forall q, In q l1 <-> In q l2) -> mem x l1 = mem x l2.
+Proof.
+  intro H. destruct (mem x l2) eqn:M.
+  - apply mem_In. apply H. apply mem_In. exact M.
+  - apply mem_nIn. intro Hin. apply mem_nIn in M. apply M. apply H. exact Hin.
+Qed.
+Lemma unnamed_dedup l e : unnamed (dedup_names l) e = unnamed l e.
+Proof. unfold unnamed. f_equal. apply mem_ext. intro q. apply dedup_names_names. Qed.
+
+Theorem update_keeps_others_targets kd kt excl cond a walk a' :
   update_cmd kd kt excl cond a walk = Ok a' ->
-  filter (unnamed (filter (wanted kd) walk)) a' = filter (unnamed (filter (wanted kd) walk)) a.
+  filter (unnamed (update_targets kd walk)) a' = filter (unnamed (update_targets kd walk)) a.
 Proof.
   intro H. apply update_cmd_ok in H. cbn zeta in H. subst a'.
-  set (T := filter (wanted kd) walk).
+  set (T := update_targets kd walk).
   destruct (pass_unnamed excl cond T a T [] (incl_refl _)) as [I1 [I2 I3]]; [intros q []|].
   rewrite filter_app, I1. rewrite (filter_nil (unnamed T) (map (fresh kt) _)); [apply app_nil_r|].
   intros x Hx. apply in_map_iff in Hx. destruct Hx as [m [E Hm]]. subst x.
   unfold unnamed. apply negb_false_iff. apply mem_In. cbn. apply in_map.
   apply in_app_or in Hm. destruct Hm; auto.
+Qed.
+(* the same, read against everything the walker yields: a path named twice is named *)
+Theorem update_keeps_others kd kt excl cond a walk a' :
+  update_cmd kd kt excl cond a walk = Ok a' ->
+  filter (unnamed (filter (wanted kd) walk)) a' = filter (unnamed (filter (wanted kd) walk)) a.
+Proof.
+  intro H. apply update_keeps_others_targets in H. unfold update_targets in H.
+  rewrite !(filter_ext _ _ (unnamed_dedup (filter (wanted kd) walk))) in H. exact H.
 Qed.
 
 (* ---- every named path on disk occurs exactly once, with the disk's content ---- *)
@@ -521,18 +586,62 @@ Proof.
   destruct (named_p p m); cbn [map]; rewrite IH; reflexivity.
 Qed.
 
-Theorem update_exactly_once kd kt a walk a' n :
+(* every target (the first walked path of an entry name) is held exactly once, with the disk's content *)
+Theorem update_exactly_once_targets kd kt a walk a' n :
   update_cmd kd kt [] 0 a walk = Ok a' ->
-  NoDup (map node_name (filter (wanted kd) walk)) ->
-  In n (filter (wanted kd) walk) ->
+  In n (update_targets kd walk) ->
   filter (fun e => bytes_eqb (e_path e) (node_name n)) a' = [fresh kt n].
 Proof.
-  intros H ND Hn. apply update_cmd_ok in H. cbn zeta in H. subst a'.
-  set (T := filter (wanted kd) walk) in *.
+  intros H Hn. apply update_cmd_ok in H. cbn zeta in H. subst a'.
+  pose proof (update_targets_nodup kd walk) as ND.
+  set (T := update_targets kd walk) in *.
   destruct (pass_once (node_name n) a T [] ND) as [IA _]; [intros q []|].
   destruct IA as [A1 A2]; [apply in_map; auto|].
   change (fun e => bytes_eqb (e_path e) (node_name n)) with (at_p (node_name n)).
   rewrite filter_app, A1, filter_map_fresh, A2, named_unique; auto.
+Qed.
+
+(* the first walked path of a name is a target *)
+Lemma find_dedup_seen q : forall l seen n', ~ In q seen ->
+  find (named_p q) l = Some n' -> In n' (dedup_seen seen l).
+Proof.
+  induction l as [|m r IH]; intros seen n' Hs F; cbn [find] in F; [discriminate|]. cbn [dedup_seen].
+  destruct (named_p q m) eqn:E.
+  - injection F as <-. unfold named_p in E. apply bytes_eqb_eq in E.
+    replace (mem (node_name m) seen) with false by (symmetry; apply mem_nIn; rewrite E; exact Hs). left. reflexivity.
+  - destruct (mem (node_name m) seen); [apply IH; auto|]. right. apply IH; auto.
+    intros [H|H]; auto. unfold named_p in E. rewrite H, bytes_eqb_refl in E. discriminate.
+Qed.
+Lemma find_named_in l n : In n l -> exists n', find (named_p (node_name n)) l = Some n'.
+Proof.
+  intro H. destruct (find (named_p (node_name n)) l) as [n'|] eqn:F; [eauto|].
+  pose proof (find_none _ _ F n H) as E. unfold named_p in E. rewrite bytes_eqb_refl in E. discriminate.
+Qed.
+
+(* every path the walker yields — overlapping file arguments or not — is held exactly once, as the entry
+   built from the first walked path of that name *)
+Theorem update_exactly_once kd kt a walk a' n :
+  update_cmd kd kt [] 0 a walk = Ok a' ->
+  In n (filter (wanted kd) walk) ->
+  exists n', find (fun m => bytes_eqb (node_name m) (node_name n)) (filter (wanted kd) walk) = Some n' /\
+    node_name n' = node_name n /\
+    filter (fun e => bytes_eqb (e_path e) (node_name n)) a' = [fresh kt n'].
+Proof.
+  intros H Hn. destruct (find_named_in _ _ Hn) as [n' F]. exists n'.
+  change (fun m => bytes_eqb (node_name m) (node_name n)) with (named_p (node_name n)).
+  split; [exact F|].
+  assert (E : node_name n' = node_name n).
+  { apply find_some in F. destruct F as [_ F]. unfold named_p in F. apply bytes_eqb_eq in F. exact F. }
+  split; [exact E|]. rewrite <- E.
+  apply (update_exactly_once_targets kd kt a walk a' n' H).
+  unfold update_targets, dedup_names. apply (find_dedup_seen (node_name n)); auto.
+Qed.
+(* in particular: exactly one entry of that name *)
+Corollary update_exactly_one kd kt a walk a' n :
+  update_cmd kd kt [] 0 a walk = Ok a' -> In n (filter (wanted kd) walk) ->
+  length (filter (fun e => bytes_eqb (e_path e) (node_name n)) a') = 1%nat.
+Proof.
+  intros H Hn. destruct (update_exactly_once kd kt a walk a' n H Hn) as (n' & _ & _ & E). rewrite E. reflexivity.
 Qed.
 
 (* ---- the ordered-list equation of the pass, for archives without duplicate names ---- *)
@@ -621,7 +730,7 @@ End Spec.
 
 Theorem update_spec kd kt excl cond a walk a' :
   NoDup (names a) -> update_cmd kd kt excl cond a walk = Ok a' ->
-  let targets := filter (wanted kd) walk in
+  let targets := update_targets kd walk in
   a' = filter (stays excl cond targets) a
        ++ map (fresh kt) (flat_map (job excl cond targets) a)
        ++ map (fresh kt) (filter (not_in a) targets).
@@ -663,11 +772,12 @@ Proof.
 Qed.
 
 Theorem update_nodup kd kt excl cond a walk a' :
-  NoDup (names a) -> NoDup (map node_name (filter (wanted kd) walk)) ->
+  NoDup (names a) ->
   update_cmd kd kt excl cond a walk = Ok a' -> NoDup (names a').
 Proof.
-  intros ND NT H. apply (update_spec _ _ _ _ _ _ _ ND) in H. cbn zeta in H. subst a'.
-  set (T := filter (wanted kd) walk) in *.
+  intros ND H. apply (update_spec _ _ _ _ _ _ _ ND) in H. cbn zeta in H. subst a'.
+  pose proof (update_targets_nodup kd walk) as NT.
+  set (T := update_targets kd walk) in *.
   unfold names. rewrite !map_app. fold (names (map (fresh kt) (flat_map (job excl cond T) a))).
   fold (names (map (fresh kt) (filter (not_in a) T))). rewrite !names_fresh, job_names.
   rewrite app_assoc. apply nodup_app.
@@ -683,8 +793,7 @@ Definition op_ok (a : archive) (o : op) : Prop :=
   | OCreate kd _ w => NoDup (map node_name (filter (wanted kd) w))
   | OAppend kd _ w => NoDup (map node_name (filter (wanted kd) w))
                       /\ forall n, In n (filter (wanted kd) w) -> ~ In (node_name n) (names a)
-  | OUpdate kd _ _ _ w => NoDup (map node_name (filter (wanted kd) w))
-  | ODelete _ | ONop => True
+  | OUpdate _ _ _ _ _ | ODelete _ | ONop => True      (* update de-duplicates what the walker yields (a048f63a) *)
   end.
 Fixpoint hist_ok (a : archive) (ops : list op) : Prop :=
   match ops with
@@ -754,4 +863,22 @@ Qed.
 Lemma update_repaired_witness :
   update_cmd false false [] 0 d13_a d13_targets
   = Ok [mkE (lit "d/b") 0 (lit "two") None; mkE (lit "d/c") 0 (lit "three") None; mkE (lit "d/a") 0 (lit "ONE2") None].
+Proof. vm_compute. reflexivity. Qed.
+
+(* ---- the command as it was before a048f63a (overlapping file arguments), kept for the record ---- *)
+Definition ov_a : archive := [mkE (lit "t/a") 0 (lit "one") None].
+(* pna experimental update x.pna t/b ./t/b  (or -r t t/b): the walker yields t/b twice *)
+Definition ov_walk : list node := [mkN (lit "t/b") 0 (lit "two") 1700000000000000000; mkN (lit "./t/b") 0 (lit "two") 1700000000000000000].
+Lemma update_overlap_unrepaired :
+  exists a walk a', NoDup (names a) /\ update_cmd_orig false false [] 0 a walk = Ok a' /\
+    names a' = [lit "t/a"; lit "t/b"; lit "t/b"] /\ ~ NoDup (names a').
+Proof.
+  exists ov_a, ov_walk, [mkE (lit "t/a") 0 (lit "one") None; mkE (lit "t/b") 0 (lit "two") None; mkE (lit "t/b") 0 (lit "two") None].
+  split; [repeat constructor; cbn; tauto|]. split; [vm_compute; reflexivity|]. split; [vm_compute; reflexivity|].
+  intro ND. inversion ND as [|x l _ ND1]; subst. inversion ND1 as [|x l H _]; subst. apply H. left. reflexivity.
+Qed.
+(* the repaired command on the same input archives t/b once *)
+Lemma update_overlap_repaired_witness :
+  update_cmd false false [] 0 ov_a ov_walk
+  = Ok [mkE (lit "t/a") 0 (lit "one") None; mkE (lit "t/b") 0 (lit "two") None].
 Proof. vm_compute. reflexivity. Qed.
